@@ -13,6 +13,19 @@ from pgstat import inline as _inline
 from pgstat.model import normalise_tree, _canonical_receivers
 
 CASES = r'''
+import functools
+_state = {"k": 1}
+
+@functools.lru_cache(maxsize=None)
+def _helper_cached(x):
+    return x * _state["k"]
+
+def uses_cached_helper_must_stay(a):
+    r1 = _helper_cached(a)
+    _state["k"] = 10
+    r2 = _helper_cached(a)
+    _state["k"] = 1
+    return r1, r2
 def temp_return(a, b):
     v = a * b + 1
     return v
@@ -420,6 +433,7 @@ ARGS = {
     "temp_into_comprehension_scope": [(5,)], "temp_into_first_iterable": [(2,)], "literal_loop_with_break_must_stay": [(True, True, []), (False, True, [])],
     "counting_while_else_adjacent": [([1, 2, 3], 2), ([1, 2, 3], 9), ([], 1)], "counting_while_with_continue_must_stay": [([1, -2, 3],)],
     "uses_helper_defaults": [(2, [5, 6])], "generator_consumer_with_break_must_stay": [([1, 2, 3], 2), ([1, 2, 3], 9)], "nested_collecting": [([[1, 2], [3]],)],
+    "uses_cached_helper_must_stay": [(3,), (4,)],
     "chained_store_through_subscript": [([[0, 0], [0, 0]], 0, 1, 7)], "guard_continue_collect": [([1, None, -2, 3],)], "uses_box": [(1,), (5,)],
 }
 
